@@ -10,7 +10,15 @@
    accumulator, early returns and first_only.  Abstract leaves (regex, doctest,
    filesystem ...) get their verdict from the parameter [leafsem];
    MatchesSetwise iterates a set of matchers, so its iteration order is the
-   parameter [rank] (set id -> child index -> position in the iteration). *)
+   parameter [rank] (set id -> child index -> position in the iteration).
+
+   Values.  Numbers come in Python's three flavours int, bool and float
+   (floats as half-integers, enough for 0.0, 0.5, 1.0 ...): they are == and <
+   across the flavours (1 == True == 1.0), denote the same dict key ([key_of]),
+   but differ for isinstance, for `in` on bytes and as falsy/truthy objects -
+   so every falsy Python value (0, False, 0.0, '', b'', None, [], {}) has a
+   representative wherever a value can occur.  Frozensets of ints stand for
+   values whose < is only a partial order (sorted() cannot canonicalise them). *)
 From TT Require Import Lib.Base Lib.Sort.
 
 Definition str := list N.          (* code points of a str / byte values of a bytes *)
@@ -25,6 +33,7 @@ Inductive val :=
 | VStr (s : str)
 | VBytes (b : str)
 | VNone
+| VSet (e : list Z)                         (* a frozenset of ints, elements listed in increasing order without repetition *)
 | VList (l : list val)
 | VDict (kvs : list (key * val))            (* insertion order; keys unique *)
 | VRec (id : nat) (attrs : list (nat * val)) (* an object with attributes; identity = id *)
@@ -99,6 +108,7 @@ Fixpoint veq (a b : val) : bool :=
   | VStr x, VStr y => str_eqb x y
   | VBytes x, VBytes y => str_eqb x y
   | VNone, VNone => true
+  | VSet x, VSet y => list_eqb Z.eqb x y
   | VList x, VList y =>
       (fix go (x y : list val) : bool :=
          match x, y with
@@ -160,6 +170,7 @@ Definition vcontains (needle matchee : val) : bool :=
                 | _ => false                                                               (* float: TypeError *)
                 end
   | VList l => existsb (fun x => veq x needle) l
+  | VSet e => match key_of needle with Some (KInt z) => existsb (Z.eqb z) e | _ => false end
   | VDict kvs => match key_of needle with Some k => has_key k kvs | None => false end
   | _ => false
   end.
@@ -179,17 +190,18 @@ Definition vlen (v : val) : option Z :=
   match v with
   | VStr s | VBytes s => Some (Z.of_nat (length s))
   | VList l => Some (Z.of_nat (length l))
+  | VSet e => Some (Z.of_nat (length e))
   | VDict l => Some (Z.of_nat (length l))
   | VExc _ _ => Some 3%Z
   | _ => None
   end.
 
 (* isinstance against the types the harness uses *)
-Inductive ty := TInt | TBool | TFloat | TStr | TBytes | TNone | TList | TDict | TRec | TObject | TTuple | TFunc | TExc (c : cls).
+Inductive ty := TInt | TBool | TFloat | TSet | TStr | TBytes | TNone | TList | TDict | TRec | TObject | TTuple | TFunc | TExc (c : cls).
 Definition isinst (v : val) (t : ty) : bool :=
   match t, v with
   | TObject, _ => true
-  | TInt, VInt _ | TInt, VBool _ | TBool, VBool _ | TFloat, VFloat _ | TStr, VStr _ | TBytes, VBytes _ | TNone, VNone | TList, VList _
+  | TSet, VSet _ | TInt, VInt _ | TInt, VBool _ | TBool, VBool _ | TFloat, VFloat _ | TStr, VStr _ | TBytes, VBytes _ | TNone, VNone | TList, VList _
   | TDict, VDict _ | TRec, VRec _ _ | TTuple, VExc _ _ | TFunc, VRet _ | TFunc, VRaise _ _ => true
   | TExc d, VExcI c _ => issub c d
   | _, _ => false
